@@ -266,10 +266,15 @@ fn spin_barrier(ctr: &AtomicUsize, target: usize) {
     let t0 = Instant::now();
     let mut i = 0u32;
     while ctr.load(Ordering::SeqCst) < target {
-        std::hint::spin_loop();
         i = i.wrapping_add(1);
-        if i % 4096 == 0 && t0.elapsed() > Duration::from_millis(500) {
-            break; // never hang the trial on a descheduled peer
+        if i < 20_000 {
+            std::hint::spin_loop();
+        } else {
+            // the box may be oversubscribed: let a descheduled peer run, and never hang the trial on it
+            std::thread::yield_now();
+            if i % 64 == 0 && t0.elapsed() > Duration::from_millis(40) {
+                break;
+            }
         }
     }
 }
